@@ -89,6 +89,22 @@ async def _async_all(compiled, doc, extra):
 
 
 def evaluate(ctx, cases):
+    # advisory twin audit: a `*_async` method that differs from its synchronous twin by design, whose difference is no longer
+    # the one that was read, proves nothing by itself - the differential run below is widened to the thorough generator
+    if ctx.tier == "quick" and not getattr(ctx, "_twin_widened", False):
+        from .. import twins
+        changed = core.outcome(lambda: twins.unreviewed(core.REPO))
+        if changed.get("ok"):
+            ctx._twin_widened = True
+            ctx.notes.append("twin audit: the difference between these asynchronous methods / helpers and their synchronous twins is not the reviewed one: "
+                             + ", ".join(k for k, _ in changed["ok"]) + " - differential run widened to the thorough generator")
+            ctx.tier = "thorough"
+            try:
+                extra = gen(ctx)
+                ctx.rng.shuffle(extra)
+                cases = list(cases) + extra[:40000]
+            finally:
+                ctx.tier = "quick"
     reqs, meta = [], []
     for c in cases:
         o = qeval.compile_outcome(c["text"])
